@@ -23,6 +23,8 @@ def _run_job(i):
         fn(S)
     except TimeoutError as e:
         err = 'timeout: %s' % e
+        if name.endswith('_opt'):      # a job that only attempts optional (non-mandatory) obligations: what it did not get to is simply not attempted
+            err = None; S.rec(name='%s.job-budget' % name, kind='note', result='unknown', status='optional job stopped at its wall-clock budget of %ds' % cap, mandatory=False)
     except Exception as e:
         err = traceback.format_exc()[-3000:]
     finally:
@@ -36,6 +38,7 @@ def run_property(pid, tier, seed, replay=None, only=None, nproc=None, verbose=Fa
     t0 = time.time()
     mod = importlib.import_module('props.' + pid.lower())
     pins = {}
+    if only and not replay: os.environ['VERIF_NO_EVIDENCE'] = '1'      # a partial run (--only) never overwrites the evidence file
     if replay:
         info = json.load(open(replay)); pins = {info['obligation_base']: info['inputs_hex']}; only = info.get('job')
     ulist = mod.units(tier)
@@ -56,7 +59,7 @@ def run_property(pid, tier, seed, replay=None, only=None, nproc=None, verbose=Fa
     if only: jobs = [j for j in jobs if re.search(only, j[0])]
     cap = getattr(mod, 'JOB_CAP', {}).get(tier, 900 if tier == 'quick' else 3600)
     global _JOBS
-    _JOBS = [(n, f, pid, tier, seed, pins, cap) for n, f in jobs]
+    _JOBS = [(n, f, pid, tier, seed, pins, min(cap, 900) if n.endswith('_opt') else cap) for n, f in jobs]
     nproc = nproc or int(os.environ.get('VERIF_JOBS', '14'))
     results = []
     if nproc == 1 or len(_JOBS) == 1:
@@ -86,8 +89,8 @@ def run_property(pid, tier, seed, replay=None, only=None, nproc=None, verbose=Fa
                 if pc in ready:
                     try: r = pc.recv()
                     except (EOFError, OSError): r = dict(job=_JOBS[i][0], records=[], violations=[], known=[], inconclusive=[], engine_errors=[], validated=0, error='worker died without a result (exit code %r)' % (pr.join(2) or pr.exitcode,), wall=time.time() - ts)
-                elif time.time() - ts > cap + 60:
-                    pr.kill(); r = dict(job=_JOBS[i][0], records=[], violations=[], known=[], inconclusive=[], engine_errors=[], validated=0, error='killed by the runner: job exceeded its wall-clock cap of %ds (solver call did not return)' % cap, wall=time.time() - ts)
+                elif time.time() - ts > _JOBS[i][6] + 60:
+                    pr.kill(); r = dict(job=_JOBS[i][0], records=[], violations=[], known=[], inconclusive=[], engine_errors=[], validated=0, error=None if _JOBS[i][0].endswith('_opt') else 'killed by the runner: job exceeded its wall-clock cap of %ds (solver call did not return)' % _JOBS[i][6], wall=time.time() - ts)
                 if r is not None:
                     pr.join(timeout=5); pc.close(); del running[i]; results.append(r)
                     if verbose: print('  job %-40s %.1fs %s' % (r['job'], r['wall'], 'ERR' if r['error'] else ''), flush=True)
